@@ -10,11 +10,12 @@ tvars == <<cvars, l, viol, cid, want, req, scope, dead>>
 Ev == Trace[l]
 Is(e) == l <= Len(Trace) /\ Ev.ev = e /\ l' = l + 1
 ToSet(s) == { s[k] : k \in DOMAIN s }
+ToChecks(s) == { <<s[k][1], s[k][2]>> : k \in DOMAIN s }
 FKSet(s) == { <<s[k][1], s[k][2], s[k][3]>> : k \in DOMAIN s }
 
 TInit == /\ Start({}, {}) /\ l = 1 /\ viol = {} /\ cid = 0 /\ want = [tables |-> {}, fks |-> {}] /\ req = "none" /\ scope = "" /\ dead = FALSE
 Reset == /\ Is("reset")
-         /\ tables' = ToSet(Ev.start.tables) /\ fks' = FKSet(Ev.start.fks)
+         /\ tables' = ToSet(Ev.start.tables) /\ fks' = FKSet(Ev.start.fks) /\ checks' = {}
          /\ created' = [t \in Tables |-> 0] /\ dropped' = [t \in Tables |-> 0]
          /\ cid' = Ev.c /\ want' = [tables |-> ToSet(Ev.want.tables), fks |-> FKSet(Ev.want.fks)] /\ req' = Ev.req /\ scope' = Ev.schema /\ dead' = FALSE
          /\ UNCHANGED viol
@@ -35,6 +36,8 @@ TCreate == /\ Is("create") /\ Consume(CreateTable(Ev.t, FKSet(Ev.inline)), "Crea
 TAddFK  == /\ Is("addfk") /\ Consume(AddFK(Ev.t, Ev.p, Ev.n), "AddFKRejected") /\ UNCHANGED <<cid, want, req, scope>>
 TDropFK == /\ Is("dropfk") /\ Consume(DropFK(Ev.t, Ev.n), "DropFKRejected") /\ UNCHANGED <<cid, want, req, scope>>
 TDrop   == /\ Is("drop") /\ Consume(DropTable(Ev.t), "DropRejected") /\ UNCHANGED <<cid, want, req, scope>>
+TAddChk == /\ Is("addcheck") /\ Consume(AddCheck(Ev.t, Ev.n), "AddCheckRejected") /\ UNCHANGED <<cid, want, req, scope>>
+TDropChk == /\ Is("dropcheck") /\ Consume(DropCheck(Ev.t, Ev.n), "DropCheckRejected") /\ UNCHANGED <<cid, want, req, scope>>
 TOther  == /\ Is("other") /\ Consume(Other(Ev.t), "OtherOnMissingTable") /\ UNCHANGED <<cid, want, req, scope>>
 \* C16: a statement checked for its qualifiers only
 TQual   == /\ Is("qstmt")
@@ -52,10 +55,11 @@ TEnd == /\ Is("end")
         /\ IF dead THEN UNCHANGED viol
            ELSE viol' = viol
                   \cup (IF tables = want.tables /\ fks = want.fks THEN {} ELSE {<<cid, "WrongEndCatalogue", l>>})
+                  \cup (IF ~Ev.checksmatter \/ checks = ToChecks(Ev.wantchecks) THEN {} ELSE {<<cid, "WrongEndChecks", l>>})
                   \cup (IF Once THEN {} ELSE {<<cid, "NotExactlyOnce", l>>})
                   \cup (IF Ev.mustreject THEN {<<cid, "CrossSchemaChangesPlanned", l>>} ELSE {})
         /\ UNCHANGED <<cvars, cid, want, req, scope, dead>>
-TStep == Reset \/ TQual \/ TCreate \/ TAddFK \/ TDropFK \/ TDrop \/ TOther \/ TSchema \/ TReject \/ TEnd
+TStep == Reset \/ TQual \/ TAddChk \/ TDropChk \/ TCreate \/ TAddFK \/ TDropFK \/ TDrop \/ TOther \/ TSchema \/ TReject \/ TEnd
 TNext == /\ TStep
          /\ (l' = Len(Trace) + 1) => PrintT(<<"VIOLS", ToJson(viol')>>)
 TSpec == TInit /\ [][TNext]_tvars
